@@ -93,7 +93,10 @@ AscFreq(i) == CASE i = 0 -> 96000 [] i = 1 -> 88200 [] i = 2 -> 64000 [] i = 3 -
 (* History of the publication.                                                                   *)
 NoPs == [sps |-> 0, pps |-> 0, vps |-> 0]
 PsTypes == IF vc = "hevc" THEN {"vps", "sps", "pps"} ELSE {"sps", "pps"}
-HistInit == [pubV |-> <<>>, pubVR |-> <<>>, pubA |-> <<>>, ps |-> NoPs, asc |-> <<>>, ascv |-> 0, vshv |-> 0, step |-> 0,
+\* a video sequence header carries the parameter sets of version m.ver - or, when it has the field sv, the pps of version
+\* m.ver next to the sps (and vps) of version m.sv: a header that changes the pps only
+SvOf(m) == IF "sv" \in DOMAIN m THEN m.sv ELSE m.ver
+HistInit == [pubV |-> <<>>, pubVR |-> <<>>, pubA |-> <<>>, ps |-> NoPs, asc |-> <<>>, ascv |-> 0, vshv |-> 0, vshs |-> 0, step |-> 0,
              nv |-> 0, na |-> 0]      \* video / audio messages so far (of any kind)
 
 IsCoded(u) == u.t \in {"idr", "slice", "sei"}
@@ -106,7 +109,7 @@ PsAfter(ps, nals, i) == IF i > Len(nals) THEN ps
 HistStep(h0, m, ts) ==
   LET st == h0.step + 1
       h == [h0 EXCEPT !.nv = IF m.k \in {"vsh", "v"} THEN @ + 1 ELSE @, !.na = IF m.k \in {"ash", "a"} THEN @ + 1 ELSE @] IN
-  CASE m.k = "vsh" -> [h EXCEPT !.step = st, !.vshv = m.ver, !.ps = [sps |-> m.ver, pps |-> m.ver, vps |-> m.ver]]
+  CASE m.k = "vsh" -> [h EXCEPT !.step = st, !.vshv = m.ver, !.vshs = SvOf(m), !.ps = [sps |-> SvOf(m), pps |-> m.ver, vps |-> SvOf(m)]]
     [] m.k = "ash" -> [h EXCEPT !.step = st, !.ascv = m.ver, !.asc = m.asc]
     [] m.k = "v" ->
          LET ps2 == PsAfter(h.ps, m.nals, 1)
@@ -243,6 +246,7 @@ FindVR(h, g) == IF \E j \in 1..Len(h.pubVR) : RtpFrameTail(g, h.pubVR[j])
                 ELSE 0
 
 VRKey(p) == \E i \in 1..Len(p.units) : p.units[i].t = "idr"
+HdrVer(h, t) == IF t = "pps" THEN h.vshv ELSE h.vshs      \* the sets of the sequence header in force
 SdpOk(h, s, late) ==
   LET ms == s.media
       vm == SelectSeq(ms, LAMBDA x : x.kind = "video")
@@ -250,7 +254,7 @@ SdpOk(h, s, late) ==
   IN /\ IF late THEN Len(vm) <= 1 ELSE Len(vm) = (IF h.vshv > 0 THEN 1 ELSE 0)
      /\ Len(vm) = 1 =>
           /\ vm[1].rate = 90000 /\ vm[1].enc = (IF vc = "hevc" THEN "H265" ELSE "H264") /\ vm[1].pt \in 96..127
-          /\ \A t \in PsTypes : IF late THEN vm[1][t] \in 1..h.vshv ELSE vm[1][t] = h.vshv
+          /\ \A t \in PsTypes : IF late THEN vm[1][t] \in 1..h.vshv ELSE vm[1][t] = HdrVer(h, t)
      /\ Len(am) <= 1
      /\ Len(am) = 1 =>
           CASE ac = "aac" -> /\ am[1].enc = "MPEG4-GENERIC" /\ am[1].asc >= 1
@@ -264,7 +268,7 @@ SdpOk(h, s, late) ==
 (* C02 for a subscriber of the Group, whenever it joins: the description carries the video parameter   *)
 (* sets of the sequence header in force now (not those of the time lal analysed the stream).           *)
 VideoCurrent(h, s) == LET vm == SelectSeq(s.media, LAMBDA x : x.kind = "video")
-                      IN Len(vm) = 1 => \A t \in PsTypes : vm[1][t] = h.vshv
+                      IN Len(vm) = 1 => \A t \in PsTypes : vm[1][t] = HdrVer(h, t)
 SdpCur(h, s) == SdpOk(h, s, TRUE) /\ VideoCurrent(h, s)
 (* the remuxer may describe the stream again after a sequence-header change: same tracks, same clock   *)
 (* rates, the parameter sets in force now                                                              *)
@@ -401,7 +405,7 @@ VWalk(nals, i, s) ==   \* s = [units, aud, sent, frame (a picture / SEI unit was
                                               !.aud = TRUE, !.sent = sent2, !.frame = TRUE])
 
 RmPop(r, m) ==
-  CASE m.k = "vsh" -> [r EXCEPT !.sp = [sps |-> m.ver, pps |-> m.ver, vps |-> m.ver], !.hasSp = TRUE]
+  CASE m.k = "vsh" -> [r EXCEPT !.sp = [sps |-> SvOf(m), pps |-> m.ver, vps |-> SvOf(m)], !.hasSp = TRUE]
     [] m.k = "ash" -> IF ac = "aac" THEN [r EXCEPT !.asc = m.asc] ELSE r
     [] m.k = "v" ->
          LET s == VWalk(m.nals, 1, [units |-> <<>>, aud |-> FALSE, sent |-> FALSE, frame |-> FALSE, sp |-> r.sp,
@@ -472,7 +476,7 @@ NoDel == [c \in {"t1", "t2"} |-> <<>>]
 (* description keeps the first sequence header, "anyps" a parameter set of any message opens the gate, *)
 (* "stage" a key frame that passes between DESCRIBE and PLAY ends the wait, "hold" a subscriber of a  *)
 (* stream without video waits for a key frame all the same.                                           *)
-RrInit == [done |-> FALSE, cache |-> <<>>, sps |-> 0, asc |-> 0, ascf |-> <<>>, apt |-> FALSE,
+RrInit == [done |-> FALSE, cache |-> <<>>, sps |-> 0, sv |-> 0, asc |-> 0, ascf |-> <<>>, apt |-> FALSE,
            sdp |-> <<>>,                      \* <<>> or << session description >>
            vseq |-> 0, aseq |-> 0,
            out |-> <<>>,                      \* frames produced in this step: [g, key]
@@ -483,7 +487,7 @@ RrSdp(r) ==
   [media |->
     (IF r.sps > 0
      THEN << [kind |-> "video", enc |-> IF vc = "hevc" THEN "H265" ELSE "H264", rate |-> 90000, pt |-> 96,
-              sps |-> r.sps, pps |-> r.sps, vps |-> IF vc = "hevc" THEN r.sps ELSE 0, asc |-> 0] >> ELSE <<>>) \o
+              sps |-> r.sv, pps |-> r.sps, vps |-> IF vc = "hevc" THEN r.sv ELSE 0, asc |-> 0] >> ELSE <<>>) \o
     (IF r.asc > 0 \/ r.apt
      THEN << [kind |-> "audio", rate |-> RrARate(r), sps |-> 0, pps |-> 0, vps |-> 0, asc |-> r.asc,
               enc |-> CASE ac = "aac" -> "MPEG4-GENERIC" [] ac = "opus" -> "OPUS" [] ac = "g711a" -> "PCMA" [] OTHER -> "PCMU",
@@ -512,10 +516,10 @@ RrRemuxAll(r, q, i) == IF i > Len(q) THEN r ELSE RrRemuxAll(RrRemux(r, q[i]), q,
 
 RrPush(r, m, mut) ==
   IF r.done THEN
-    IF m.k = "vsh" THEN (IF r.sps > 0 /\ m.ver # r.sps /\ mut # "stale" THEN LET r1 == [r EXCEPT !.sps = m.ver] IN [r1 EXCEPT !.sdp = << RrSdp(r1) >>] ELSE r)
+    IF m.k = "vsh" THEN (IF r.sps > 0 /\ m.ver # r.sps /\ mut # "stale" THEN LET r1 == [r EXCEPT !.sps = m.ver, !.sv = SvOf(m)] IN [r1 EXCEPT !.sdp = << RrSdp(r1) >>] ELSE r)
     ELSE IF m.k = "ash" THEN r
     ELSE RrRemux(r, m)
-  ELSE LET r1 == CASE m.k = "vsh" -> [r EXCEPT !.sps = m.ver]
+  ELSE LET r1 == CASE m.k = "vsh" -> [r EXCEPT !.sps = m.ver, !.sv = SvOf(m)]
                    [] m.k = "ash" -> [r EXCEPT !.asc = m.ver, !.ascf = m.asc]
                    [] m.k = "a" -> [r EXCEPT !.apt = @ \/ ac # "aac", !.cache = Append(@, m)]
                    [] OTHER -> [r EXCEPT !.cache = Append(@, m)]
